@@ -14,6 +14,10 @@ ENGINES = {
     "e_grammar": ("e_grammar.cpp", "clang++", BASE + SAN, ["-lrapidcheck", "-lpthread"]),
     "e_values": ("e_values.cpp", "clang++", BASE + SAN, ["-lrapidcheck", "-lpthread"]),
     "e_values_mo": ("e_values.cpp", "clang++", BASE + SAN + ["-DVALUES_MOVE_ONLY"], ["-lrapidcheck", "-lpthread"]),
+    "e_lists": ("e_lists.cpp", "clang++", BASE + SAN, ["-lrapidcheck", "-lpthread"]),
+    "e_lists_mo": ("e_lists.cpp", "clang++", BASE + SAN + ["-DVALUES_MOVE_ONLY"], ["-lrapidcheck", "-lpthread"]),
+    # g++ keeps C++17's rule for `return <rvalue-reference parameter>;` (a copy), clang 14 moves; g++ cannot compile ctpg.hpp with -fsanitize=undefined
+    "e_lists_gxx": ("e_lists.cpp", "g++", ["-std=gnu++17", "-g", "-O1", "-DCTPG_VERIF", "-fno-omit-frame-pointer", "-fsanitize=address"], ["-lrapidcheck", "-lpthread"]),
     "e_customlexer": ("e_customlexer.cpp", "clang++", BASE + SAN, ["-lrapidcheck", "-lpthread"]),
     "e_threads": ("e_threads.cpp", "clang++", BASE + SAN, ["-lrapidcheck", "-lpthread"]),
     "e_threads_tsan": ("e_threads.cpp", "clang++", BASE + ["-fsanitize=thread"], ["-lrapidcheck", "-lpthread"]),
